@@ -69,3 +69,63 @@ Theorem C10_clause_window : forall fuel k st lr v vi item st' lr' v',
   vreq vi - vcur vi <= N.max (vreq v - vcur v) (vcur v' - vcur v + 1).
 Proof. exact next_clause_window. Qed.
 Print Assumptions C10_clause_window.
+
+(* ------------------------------------------------------------------ *)
+(* The buffer during parser calls (ProgBuf.v, CnfBuf.v).  crun_buf p s m is crun p s together with the largest buffer
+   length seen at any reader state of the run — every program node, every iteration of every refill loop, the state
+   between realign/shrink and the read — starting from a running maximum m.  If every Peek of the run has offset < W and
+   the chunk size is <= C, the buffer never exceeds 4C + W and the final state satisfies the same precondition again, so the
+   bound composes over any number of calls and does not depend on the bytes or items processed before.  For the DIMACS
+   family the window of a call is the number of bytes it consumes (+ the longest line for a non-item outcome): a whole
+   parse of an input whose items span at most n bytes and whose lines are at most L long keeps the buffer <= 4c + n + L + 1. *)
+From Flussab Require Import Simulation ProgBuf CnfBuf.
+
+Theorem C10_instrumented_run_is_the_run : forall {A} (p : prog A),
+  forall s m, fst (crun_buf p s m) = crun p s.
+Proof. exact @crun_buf_fst. Qed.
+Print Assumptions C10_instrumented_run_is_the_run.
+
+Theorem C10_peek_window : forall s k C,
+  chunk_size s <= C ->
+  let s' := fst (peek s k) in
+  valid_len s <= valid_len s' /\ valid_len s' <= N.max (valid_len s) (k + C).
+Proof. exact peek_window. Qed.
+Print Assumptions C10_peek_window.
+
+Theorem C10_buffer_bound_for_bounded_peeks : forall {A} (p : prog A) (C W : N) s m,
+  BufOK C W s -> PeekBound W p s ->
+  snd (crun_buf p s m) <= N.max m (4 * C + W) /\
+  (forall a s', crun p s = CDone a s' -> BufOK C W s') /\
+  (forall pk s', crun p s = CPanic pk s' -> BufOK C W s').
+Proof. exact @crun_buf_bound. Qed.
+Print Assumptions C10_buffer_bound_for_bounded_peeks.
+
+Theorem C10_buffer_bound_from_the_abstract_window : forall {A} (p : prog A) (G : ares A -> Prop) (C W : N) s v m,
+  Rel s v -> BufOK C W s ->
+  (forall vi r, aruns_via p v vi r -> G r -> r <> AStuck /\ vreq vi - vcur vi <= W) ->
+  exists r, aruns p v r /\ refines (crun p s) r /\
+    (G r -> snd (crun_buf p s m) <= N.max m (4 * C + W) /\
+            (forall a s', crun p s = CDone a s' -> BufOK C W s')).
+Proof. exact @crun_buf_window. Qed.
+Print Assumptions C10_buffer_bound_from_the_abstract_window.
+
+Theorem C10_dimacs_clause_call_buffer : forall fuel k st lr s v C n item st' lr' s' m,
+  Rel s v -> K fuel lr v -> BufOK C (n + 1) s ->
+  crun (next_clause fuel k st lr) s = CDone ((Ok (Some item), st'), lr') s' ->
+  g_consumed s' - g_consumed s <= n ->
+  snd (crun_buf (next_clause fuel k st lr) s m) <= N.max m (4 * C + n + 1) /\
+  BufOK C (n + 1) s' /\
+  exists v', Rel s' v' /\ K fuel lr' v' /\ vS v' = vS v.
+Proof. exact next_clause_buf. Qed.
+Print Assumptions C10_dimacs_clause_call_buffer.
+
+Theorem C10_dimacs_whole_parse_buffer : forall fuel k maxd ih (sr : source) (c n L : N),
+  NoLie (events sr) -> 1 <= c ->
+  Forall (fun b => b < 256) (fst (stream_of sr)) -> nlen (fst (stream_of sr)) < 2 ^ 62 ->
+  (length (fst (stream_of sr)) < fuel)%nat ->
+  LinesWithin L (fst (stream_of sr)) ->
+  ParseSpans fuel n k maxd ih lrs_init (set_chunk (reader_init sr) c) ->
+  snd (crun_buf (parse_dimacs fuel k maxd ih lrs_init) (set_chunk (reader_init sr) c) 0) <= 4 * c + (n + L + 1).
+Proof. exact parse_dimacs_buf_init. Qed.
+Print Assumptions C10_dimacs_whole_parse_buffer.
+
